@@ -5,6 +5,7 @@ from __future__ import annotations
 from . import common, gram
 from .sexp import Sym
 
+import json
 import multiprocessing as _mp
 
 FUEL = 1500
@@ -140,6 +141,9 @@ def _eval_case(pp, job):
     if job.get("want_plain"):
         # does the extracted node table fall under the closed PEG-reading theorem (Props/C01Sem.lean)?  Asked of the model.
         out["plain_line"] = gram.model_line(mode_sexp(("none",)), "plain", 0, ri, dw, "", False, [], nodes)
+    if job.get("want_term"):
+        # C06: do the executable hypotheses of entry_points_terminate_depth (Props/C06Term.lean) hold of this node table?
+        out["term_line"] = gram.model_line(mode_sexp(("none",)), "termcheck", 0, ri, dw, "", False, [], nodes)
     return out
 
 
@@ -169,6 +173,32 @@ def run_jobs(ctx, stream, jobs, project=None, nontrivial=None):
             if ans.strip() == "T":
                 n_plain_g += 1
                 n_plain_c += nrec
+    # C06 termination tests (depthOk at the root, advOk) evaluated by the driver on every extracted table that asked
+    term_q = [(j, r["term_line"], r["records"]) for j, r in zip(jobs, res) if "skip" not in r and r.get("term_line")]
+    term = {"grammars_asked": len(term_q), "acyclic": 0, "acyclic_and_advancing": 0, "compared_cases_under_theorem": 0,
+            "real_timeouts_under_theorem": 0, "model_hangs_under_theorem": 0}
+    term_bad = []
+    if term_q:
+        answers = ctx.driver.run_sharded([l for _, l, _ in term_q])
+        mi = 0
+        idx_of = {}
+        for k, c in enumerate(cases):
+            idx_of.setdefault(json.dumps([c["prog"], c["root"]], sort_keys=True, default=str), []).append(k)
+        for ans, (job, _, recs) in zip(answers, term_q):
+            a = ans.strip()
+            if a.startswith("(T"):
+                term["acyclic"] += 1
+            if a != "(T T)":
+                continue
+            term["acyclic_and_advancing"] += 1
+            term["compared_cases_under_theorem"] += len(recs)
+            for k in idx_of.get(json.dumps([job["prog"], job["root"]], sort_keys=True, default=str), []):
+                if impl[k] == "hang":
+                    term["real_timeouts_under_theorem"] += 1
+                    term_bad.append({"case": cases[k], "impl": impl[k], "model": model[k], "what": "real-timeout"})
+                elif "hang" in model[k].replace("(", " ").replace(")", " ").split():
+                    term["model_hangs_under_theorem"] += 1
+                    term_bad.append({"case": cases[k], "impl": impl[k], "model": model[k], "what": "model-hang"})
     # the whole real call timed out: the model must say `hang` somewhere (partial scan results are not observable)
     model = ["hang" if (i == "hang" and m.endswith("hang)")) else m for m, i in zip(model, impl)]
     # CPython's recursion limit (deep right-recursive grammars on long inputs) is a property of the runtime, not of
@@ -198,6 +228,13 @@ def run_jobs(ctx, stream, jobs, project=None, nontrivial=None):
         st["plain_fragment"] = {"grammars_asked": len(plain_q), "grammars_plain": n_plain_g, "compared_cases_on_plain_grammars": n_plain_c,
                                 "meaning": "node tables for which the driver evaluates plainTable = true, i.e. the hypothesis "
                                            "Plain g of plain_parse_sound / plain_parse_iff_sem holds for the compared grammar"}
+    if term_q:
+        term["meaning"] = ("node tables for which the driver evaluates depthOk g |g| root = T (acyclic) and advOk g |g| = T, i.e. the "
+                           "hypotheses of PP.Parse.entry_points_terminate_depth hold (fuel %d >= |g|): the model provably never "
+                           "answers hang there, so a timeout of the real entry point on such a grammar is a failing input" % FUEL)
+        st["termination_fragment"] = term
+        ctx.notes.setdefault("termination_fragment", {})[stream] = {k: v for k, v in term.items() if k != "meaning"}
+        ctx.term_bad = getattr(ctx, "term_bad", []) + term_bad
     if n_rec:
         st["python_recursion_limit"] = st.get("python_recursion_limit", 0) + n_rec
     kk = st.setdefault("node_kinds_hit", {})
